@@ -524,6 +524,13 @@ func (f *Firewall) inConns(fp firewall.Packet, h *HostInfo, caPool *cert.CAPool,
 		return false
 	}
 
+	if !c.Expires.After(time.Now()) {
+		// Idle longer than its timeout, the timer wheel just has not gotten to it yet
+		delete(conntrack.Conns, fp)
+		conntrack.Unlock()
+		return false
+	}
+
 	if c.rulesVersion != f.rulesVersion {
 		// This conntrack entry was for an older rule set, validate
 		// it still passes with the current rule set
